@@ -11,7 +11,9 @@ import (
 	"context"
 	"fmt"
 	"net"
+	"strings"
 	"testing"
+	"time"
 
 	"github.com/emersion/go-message/textproto"
 	"github.com/emersion/go-msgauth/authres"
@@ -246,7 +248,16 @@ func remotePipelineGroup(t *testing.T, r *rep.Reporter) {
 					src, partial, nrcpt, pooling := src, partial, nrcpt, pooling
 					r.Run(i, fmt.Sprintf("remote-behind-pipeline-%s-partial=%v-rcpts=%d-pool=%v", src, partial, nrcpt, pooling), func(c *rep.Case) {
 						tag := fmt.Sprintf("c06q%d", i-groupQ)
-						srv, err := smtpd.New(smtpd.Config{ListenAddr: "127.0.0.1:0", Hostname: "nexthop.invalid", PIPELINING: true, EightBitMIME: true})
+						var srv *smtpd.Server
+						var err error
+						for try := 0; try < 200; try++ {
+							srv, err = smtpd.New(smtpd.Config{ListenAddr: "127.0.0.1:0", Hostname: "nexthop.invalid", PIPELINING: true, EightBitMIME: true})
+							if err == nil || !strings.Contains(err.Error(), "address already in use") {
+								break
+							}
+							// the shared machine is out of ephemeral ports for a moment
+							time.Sleep(time.Duration(20+10*try) * time.Millisecond)
+						}
 						if err != nil {
 							c.Inconclusive("cannot start the scripted server: " + err.Error())
 							c.Done("", false)
